@@ -390,6 +390,32 @@ CHECKS['C06']['jobs'] += _real_runner(_mode_jobs('MODE_SCHED', [13], extra=['WIT
 CHECKS['C06']['jobs'] += _real_runner(_mode_jobs('MODE_SCHED', [34], extra=['WITH_JOBSERVER'], suffix='_tokens', reach=('tokens-success', 'token-arrived', 'woken-for-token', 'watching-with-console-only'), bounds='pools and console commands as a jobserver client: FIFO holding 0..2 tokens, another client may return one token while ninja waits'))
 CHECKS['C07']['jobs'] += _real_runner(_mode_jobs('MODE_CRASH', [5], extra=['INTERRUPT'], suffix='_interrupt', reach=('interrupted', 'recovered'), bounds='SIGINT / SIGTERM / SIGHUP at any wait, delivered during the poll or left pending; running commands touched their outputs or not; recovery build'))
 
+# ---- level texts / notes for what was added on top of the first version of each check
+_MAIN = ' Jobs named *_main enter the same harness through ninja.cc itself: real_main(argv) with the real flag parsing (a 60-line getopt model stands in for libc getopt_long), NinjaMain (manifest load, OpenBuildLog/OpenDepsLog, the RebuildManifest loop, RunBuild) and the real StatusPrinter; only the type of NinjaMain::disk_interface_ is swapped for the harness disk and CommandRunner::factory hands out the harness runner.'
+_PROCS = ' Jobs named *_procs additionally execute the real process layer (src/real_command_runner.cc, src/subprocess-posix.cc, src/jobserver-posix.cc) above a model of the system calls it uses (harness/osmodel.h: pipe, posix_spawn, ppoll, read, waitpid, kill, sigaction, a jobserver FIFO): when a command writes which part of its output, when it exits and with which status or signal, whether SIGCHLD interrupts the poll before the pipe reaches end of file, whether an interrupt is delivered during the poll or left pending, and when another jobserver client returns a token are symbolic.'
+CHECKS['C01']['level_text'] += _MAIN + ' One of them regenerates the manifest (build.ninja is the output of a generator statement; editing configure.in selects the next manifest variant) and compares with the from-scratch build under the regenerated manifest. A command\'s result also depends on its evaluated command line and response-file content (generator rules excepted), so a stale output after a command-line change is a content mismatch.'
+CHECKS['C01']['level_note'] = CHECKS['C01']['level_note'].replace('Manifest regeneration through NinjaMain::RebuildManifest and histories containing interrupted builds are covered by C07, not here.', 'Manifest regeneration through NinjaMain::RebuildManifest is covered by the regen_manifest_main jobs; histories containing interrupted or killed builds are covered by C07.')
+CHECKS['C02']['level_text'] += _MAIN
+CHECKS['C05']['level_text'] += _MAIN + _PROCS + ' There the exit status is what Subprocess::Finish / ParseExitStatus make of a symbolic wait status (exit code 1..3, SIGSEGV, SIGKILL) and what real_main hands to exit().'
+CHECKS['C05']['level_note'] = CHECKS['C05']['level_note'].replace('ParseExitStatus in subprocess-posix.cc is outside the encoding (SubprocessSet is a cut point); exit code 130 is covered by C07.', 'ParseExitStatus is executed in the *_procs jobs; exit code 130 is covered by C07.')
+CHECKS['C06']['level_text'] += _MAIN + _PROCS + ' The *_procs jobs check the limits against the real RealCommandRunner::CanRunMore and the real FIFO client (tokens read == tokens written back, same byte values, every descriptor closed, every child reaped, a poll that reported "token available" is followed by an attempt to take it).'
+CHECKS['C06']['level_note'] = CHECKS['C06']['level_note'].replace('RealCommandRunner::CanRunMore is mirrored by the harness runner (with a jobserver the capacity is unlimited and Plan::FindWork token acquisition limits the jobs).', 'In the jobs without the process layer RealCommandRunner::CanRunMore is mirrored by the harness runner; the *_procs jobs run the real one. getloadavg (-l) is not modelled.')
+CHECKS['C07']['level_text'] += _MAIN + _PROCS + ' In the *_procs interrupt jobs ninja must signal exactly the process groups of the commands that do not share its terminal, with the signal it received, reap every child and restore its handlers.'
+CHECKS['C17']['level_text'] += _MAIN
+CHECKS['C20']['level_text'] += _MAIN + _PROCS + ' There a command\'s output reaches ninja through Subprocess::OnPipeReady in one or two reads, interleaved with the other commands\' events.'
+CHECKS['C20']['level_note'] = CHECKS['C20']['level_note'].replace('The subprocess pipes (Subprocess::OnPipeReady), the smart-terminal path', 'The smart-terminal path')
+CHECKS['C19']['level_text'] += _MAIN + ' The *_tools jobs run, from a fully built and then perturbed tree, one of -t commands, commands -s, inputs, multi-inputs, query, targets (all, rule, depth), rules, graph, compdb, compdb -x, compdb-targets, deps, missingdeps, or -n, through real_main on a symbolic target: no command may start, the tree and both logs must be byte-identical afterwards, what the tool prints is compared with the declared-input reference (commands in dependency order, inputs, kinds, compdb parsed as JSON and compared entry by entry), and the next real build must start exactly the commands a control build from the same state starts (the state is saved, the control build is run, the state is restored).'
+CHECKS['C19']['level_note'] = CHECKS['C19']['level_note'].replace("The read-only tools of ninja.cc (-t commands, inputs, query, targets, rules, graph, compdb, deps, missingdeps) are not driven: only their JSON string encoder and the dry-run path are encoded; directory", "The read-only tools are driven through real_main on the catalogue shapes (browse, msvc, urtle and wincodepage are not); their output is compared with the reference for commands, inputs, query, targets all and compdb, the others are only checked for being read-only. Directory")
+CHECKS['C19']['assumptions'] = [a for a in CHECKS['C19']['assumptions'] if 'tools themselves are outside' not in a] + ['tool output is compared with the reference on the catalogue shapes only; JSON string encoding is checked on arbitrary bytes separately']
+CHECKS['C18']['level_text'] += ' Further jobs go through ToolClean / ToolCleanDead in ninja.cc (real_main with -t clean [-g] [target] [-r rule], -n, -t cleandead, -t recompact) on pipeline shapes: scope and count are checked against the reference, a following build must re-create everything, and cleandead after statements were removed from the manifest must delete exactly the former outputs that appear nowhere in the new graph (also when the log was recompacted in between).'
+CHECKS['C08']['level_text'] += ' The *_logtools jobs run -t restat / -t recompact through real_main between builds and require the next build to start exactly what a control build from the same state starts.'
+CHECKS['C03']['level_text'] += ' One job runs -t restat / -t recompact between builds of a dyndep shape and requires the next build to start exactly what a control build from the same state starts.'
+CHECKS['C04']['level_text'] += ' One job drives the real RealDiskInterface (MakeDirs, WriteFile, Stat, RemoveFile) on the in-memory file system.'
+CHECKS['C09']['level_text'] += ' One job kills a recompacting session after every persistence event of the recompaction (temporary file, flushes, rename) and continues with the usual sessions.'
+CHECKS['C10']['level_text'] += ' One shape changes the set of headers a command includes when its source is edited (same number of headers, output unchanged under a restat rule), over three invocations.'
+CHECKS['C11']['level_text'] += ' Further shapes: the dyndep file as an order-only input listed after another one, a checked-in dyndep file whose implicit output another statement names as an input (with -t restat / -t recompact between builds), and a dyndep binding at rule level whose dyndep file sets restat.'
+CHECKS['C12']['level_text'] += ' A fourth family reads two child files one after the other (each by include or subninja) with a rule declared at the top and/or in the first child, and checks in which scope each use of the rule name resolves (or that the manifest is rejected).'
+
 # ---- tiering: which jobs run in the quick tier (measured on 16 cores; the rest is thorough only) -------------------------------------------
 def _single_edit_variant(prop, job_name):
     """for a heavy shape: the quick tier edits at most one source per round, the thorough tier any subset"""
